@@ -387,10 +387,11 @@ impl<'a, R: Clone> AsyncGlobalCache<'a, R> {
 
             // Expired - remove and continue
             drop(entry_ref);
-            self.cache.remove(key);
 
-            // Also remove from order queue to prevent orphaned keys
+            // Remove from the cache and from the order queue under the order lock, so that a
+            // concurrent insert of the same key cannot end up stored but untracked
             let mut order = self.order.lock();
+            self.cache.remove(key);
             order.retain(|k| k != key);
         }
 
